@@ -670,7 +670,12 @@ def handle (spec : Bool) (d : DState) : List String → DState × String
 partial def loop (spec : Bool) (hin hout : IO.FS.Stream) (d : DState) : IO Unit := do
   let line ← hin.getLine
   if line.isEmpty then return ()
-  let (d', ans) := handle spec d (tokens line)
+  -- a leading `@seed:case:max_ops` token names the harness case the request belongs to
+  -- (so that a reported disagreement can be replayed); it carries no information for the model
+  let toks := match tokens line with
+    | t :: rest => if t.startsWith "@" then rest else t :: rest
+    | [] => []
+  let (d', ans) := handle spec d toks
   hout.putStrLn ans
   loop spec hin hout d'
 
